@@ -1,4 +1,6 @@
 import ArrProofs.Lemmas.C14
+import ArrProofs.Lemmas.C14Ext
+import ArrProofs.Lemmas.C14DotNd
 /-!
 # C14 — vector and matrix products equal their defining sums when operands conform
 
@@ -8,7 +10,10 @@ Property theorems only (helpers: `ArrProofs/Lemmas/C14.lean`).  Model under test
 (`Arr.get?` with default `0`; `ent_defined` shows the read is defined on every in-range coordinate of a
 well-formed array).  Sums are `Finset` sums over the shared index.  Unless a hypothesis says otherwise the
 statements hold for every length including zero; `0 < …` hypotheses appear exactly where the Rust goes
-through `split_axis` / `split`, whose behaviour on empty arrays is outside the property (lengths 1..).
+through `split_axis` / `split`, or through `zip` / `broadcast`, which REFUSE an empty operand (the model mirrors that
+refusal; section E2 at the end states what happens on zero-length operands) — the property is about lengths 1...
+The sections E1–E3 at the end cover what lies outside the statement: `matmul` of a vector with a stack, zero-length
+operands, `dot` with an operand of rank ≥ 3.
 
 Open finding (test-pinned, see `/verif/fixes/C14-dot-2d-rectangular-refused.md`): `dot` of two matrices
 refuses a conforming product whose result is not square.  `DotMatMat` is the full statement,
@@ -75,13 +80,15 @@ theorem matmul_mat_vec (a b : A) (n k : Nat) (ha : a.WF) (hb : b.WF) (hn : 0 < n
     rw [ent_eq_getD, ent_eq_getD, hsa, hsb]; simp [ravel]
 
 /-- **vector · vector** under `matmul` is the flattened dot product, a one-element array. -/
-theorem matmul_vec_vec (a b : A) (k : Nat) (ha : a.WF) (hb : b.WF) (hsa : a.shape = [k]) (hsb : b.shape = [k]) :
+theorem matmul_vec_vec (a b : A) (k : Nat) (ha : a.WF) (hb : b.WF) (hsa : a.shape = [k]) (hsb : b.shape = [k])
+    (hk : 0 < k) :
     matmul a b = .ok ⟨[∑ i ∈ range k, a.ent [i] * b.ent [i]], [1]⟩ := by
   have hla : a.elems.length = k := by rw [ha, hsa]; simp
   have hlb : b.elems.length = k := by rw [hb, hsb]; simp
   unfold matmul vdot
   simp only [Arr.ndim, Arr.len, hsa, hsb, hla, hlb]
   simp only [List.length_cons, List.length_nil, Nat.zero_add, and_self, if_true]
+  rw [if_neg (by omega)]
   rw [sumProd_eq_sum _ _ (by rw [hla, hlb]), hla]
   congr 3
   apply Finset.sum_congr rfl
@@ -189,7 +196,7 @@ theorem matmul_refuses_stack (a b : A) (s n m m' p : Nat) (ha : a.WF) (hb : b.WF
 /-! ## dot (operands up to rank two) -/
 
 /-- **scalar · array**: a one-element left operand scales the other operand (shape: the broadcast shape) -/
-theorem dot_scalar_left (a b : A) (ha : a.WF) (h1 : a.len = 1) :
+theorem dot_scalar_left (a b : A) (ha : a.WF) (h1 : a.len = 1) (hb0 : b.len ≠ 0) :
     ∃ x, a.elems = [x] ∧
       dot a b = some (.ok ⟨b.elems.map (fun y => x * y), List.replicate (a.ndim - b.ndim) 1 ++ b.shape⟩) := by
   have hs : a.shape = List.replicate a.ndim 1 := ones_of_prod_eq_one a.shape (by rw [← ha]; exact h1)
@@ -201,12 +208,17 @@ theorem dot_scalar_left (a b : A) (ha : a.WF) (h1 : a.len = 1) :
   refine ⟨x, hx, ?_⟩
   unfold dot
   rw [if_pos (Or.inl h1)]
-  simp only [multiplyScalar, hx]
-  rw [hs, bshape_ones_left']
+  have hm : multiplyScalar a b = .ok ⟨b.elems.map (fun y => x * y), bshape a.shape b.shape⟩ := by
+    unfold multiplyScalar
+    rw [hx]
+    rcases hB : b.elems with _ | ⟨y1, r⟩
+    · simp [Arr.len, hB] at hb0
+    · rfl
+  rw [hm, hs, bshape_ones_left']
   simp [Arr.ndim]
 
 /-- **array · scalar** -/
-theorem dot_scalar_right (a b : A) (hb : b.WF) (h1 : b.len = 1) :
+theorem dot_scalar_right (a b : A) (hb : b.WF) (h1 : b.len = 1) (ha0 : a.len ≠ 0) :
     ∃ y, b.elems = [y] ∧
       dot a b = some (.ok ⟨a.elems.map (fun x => x * y), List.replicate (b.ndim - a.ndim) 1 ++ a.shape⟩) := by
   have hs : b.shape = List.replicate b.ndim 1 := ones_of_prod_eq_one b.shape (by rw [← hb]; exact h1)
@@ -221,19 +233,20 @@ theorem dot_scalar_right (a b : A) (hb : b.WF) (h1 : b.len = 1) :
   have hm : multiplyScalar a b = .ok ⟨a.elems.map (fun x => x * y), bshape a.shape b.shape⟩ := by
     unfold multiplyScalar
     rw [hy]
-    rcases a.elems with _ | ⟨x1, _ | ⟨x2, r⟩⟩
-    · rfl
+    rcases hA : a.elems with _ | ⟨x1, _ | ⟨x2, r⟩⟩
+    · simp [Arr.len, hA] at ha0
     · rfl
     · rfl
   rw [hm, hs, bshape_ones_right']
   simp [Arr.ndim]
 
 /-- **vector · vector**: the sum of the products, a one-element array -/
-theorem dot_11 (a b : A) (k : Nat) (ha : a.WF) (hb : b.WF) (hsa : a.shape = [k]) (hsb : b.shape = [k]) (hk : k ≠ 1) :
+theorem dot_11 (a b : A) (k : Nat) (ha : a.WF) (hb : b.WF) (hsa : a.shape = [k]) (hsb : b.shape = [k]) (hk : k ≠ 1)
+    (hk0' : k ≠ 0) :
     dot a b = some (.ok ⟨[∑ i ∈ range k, a.ent [i] * b.ent [i]], [1]⟩) := by
   have hla : a.elems.length = k := by rw [ha, hsa]; simp
   have hlb : b.elems.length = k := by rw [hb, hsb]; simp
-  have := matmul_vec_vec a b k ha hb hsa hsb
+  have := matmul_vec_vec a b k ha hb hsa hsb (by omega)
   unfold matmul at this
   simp only [Arr.ndim, hsa, hsb, List.length_cons, List.length_nil, Nat.zero_add, and_self, if_true] at this
   unfold dot
@@ -242,7 +255,7 @@ theorem dot_11 (a b : A) (k : Nat) (ha : a.WF) (hb : b.WF) (hsa : a.shape = [k])
 
 /-- **matrix · vector** under `dot` -/
 theorem dot_21 (a b : A) (n k : Nat) (ha : a.WF) (hb : b.WF) (hsa : a.shape = [n, k]) (hsb : b.shape = [k])
-    (h1 : a.len ≠ 1) (h2 : b.len ≠ 1) :
+    (h1 : a.len ≠ 1) (h2 : b.len ≠ 1) (hk : 0 < k) :
     ∃ r, dot a b = some (.ok r) ∧ r.shape = [n] ∧ r.WF ∧
       ∀ i, i < n → r.get? [i] = some (∑ q ∈ range k, a.ent [i, q] * b.ent [q]) := by
   have hla := wf_len2 ha hsa
@@ -253,7 +266,7 @@ theorem dot_21 (a b : A) (n k : Nat) (ha : a.WF) (hb : b.WF) (hsa : a.shape = [n
     rw [if_neg (by simp [h1, h2])]
     simp only [Arr.ndim, hsa, hsb, List.length_cons, List.length_nil]
     simp
-    exact dot1d_matvec a b n k ha hb hsa hsb
+    exact dot1d_matvec a b n k ha hb hsa hsb hk
   · intro i hi
     have hlr : (row a k i).length = k := length_row a k i (by rw [hla]; exact Nat.mul_le_mul_right k hi)
     simp only [Arr.get?, Arr.flat, ravel, List.length_map, List.length_range, List.prod_nil, Nat.mul_one,
@@ -268,7 +281,7 @@ theorem dot_21 (a b : A) (n k : Nat) (ha : a.WF) (hb : b.WF) (hsa : a.shape = [n
 
 /-- **vector · matrix** under `dot` -/
 theorem dot_12 (a b : A) (k p : Nat) (ha : a.WF) (hsa : a.shape = [k]) (hsb : b.shape = [k, p])
-    (h1 : a.len ≠ 1) (h2 : b.len ≠ 1) :
+    (h1 : a.len ≠ 1) (h2 : b.len ≠ 1) (hk : 0 < k) :
     ∃ r, dot a b = some (.ok r) ∧ r.shape = [p] ∧ r.WF ∧
       ∀ j, j < p → r.get? [j] = some (∑ i ∈ range k, a.ent [i] * b.ent [i, j]) := by
   have hla : a.elems.length = k := by rw [ha, hsa]; simp
@@ -278,7 +291,7 @@ theorem dot_12 (a b : A) (k p : Nat) (ha : a.WF) (hsa : a.shape = [k]) (hsb : b.
     rw [if_neg (by simp [h1, h2])]
     simp only [Arr.ndim, hsa, hsb, List.length_cons, List.length_nil]
     simp
-    exact dot1d_vecmat a b k p ha hsa hsb
+    exact dot1d_vecmat a b k p ha hsa hsb hk
   · intro j hj
     simp only [Arr.get?, Arr.flat, ravel, List.length_map, List.length_range, List.prod_nil, Nat.mul_one,
       Nat.add_zero, List.getElem?_map, List.getElem?_range hj, Option.map_some]
@@ -381,13 +394,15 @@ theorem dot_refuses_12 (a b : A) (k k' p : Nat) (ha : a.WF) (hp : 0 < p)
 /-! ## inner, outer, vdot -/
 
 /-- **inner, two vectors** -/
-theorem inner_11 (a b : A) (k : Nat) (ha : a.WF) (hb : b.WF) (hsa : a.shape = [k]) (hsb : b.shape = [k]) :
+theorem inner_11 (a b : A) (k : Nat) (ha : a.WF) (hb : b.WF) (hsa : a.shape = [k]) (hsb : b.shape = [k])
+    (hk : 0 < k) :
     inner a b = .ok ⟨[∑ i ∈ range k, a.ent [i] * b.ent [i]], [1]⟩ := by
   have hla : a.elems.length = k := by rw [ha, hsa]; simp
   have hlb : b.elems.length = k := by rw [hb, hsb]; simp
   unfold inner inner11 shapesAlign
-  simp only [Arr.ndim, hsa, hsb, List.length_cons, List.length_nil, Nat.zero_add, and_self, if_true,
-    List.getElem?_cons_zero, Res.bind_ok]
+  simp only [Arr.ndim, Arr.len, hla, hlb, hsa, hsb, List.length_cons, List.length_nil, Nat.zero_add, and_self, if_true,
+    List.getElem?_cons_zero, Res.bind_ok, or_self]
+  rw [if_neg (by omega)]
   rw [sumProd_eq_sum _ _ (by rw [hla, hlb]), hla]
   congr 3
   apply Finset.sum_congr rfl
@@ -397,7 +412,7 @@ theorem inner_11 (a b : A) (k : Nat) (ha : a.WF) (hb : b.WF) (hsa : a.shape = [k
 /-- **inner, any ranks** (not both vectors): shapes `sa ++ [k]` and `sb ++ [k]` give shape `sa ++ sb`, and the entry
 at `(ca, cb)` is `Σ_q A[ca, q]·B[cb, q]` — the contraction of the two last axes. -/
 theorem inner_spec (a b : A) (sa sb : List Nat) (k : Nat) (ha : a.WF) (hb : b.WF)
-    (hsa : a.shape = sa ++ [k]) (hsb : b.shape = sb ++ [k]) (hpa : 0 < sa.prod) (hpb : 0 < sb.prod)
+    (hsa : a.shape = sa ++ [k]) (hsb : b.shape = sb ++ [k]) (hpa : 0 < sa.prod) (hpb : 0 < sb.prod) (hk : 0 < k)
     (hrank : ¬ (sa = [] ∧ sb = [])) :
     ∃ r, inner a b = .ok r ∧ r.shape = sa ++ sb ∧ r.WF ∧
       ∀ ca cb, inRange sa ca = true → inRange sb cb = true →
@@ -413,7 +428,7 @@ theorem inner_spec (a b : A) (sa sb : List Nat) (k : Nat) (ha : a.WF) (hb : b.WF
       unfold shapesAlign
       simp [Arr.ndim, hsa, hsb]
     rw [hal]; simp only [Res.bind_ok]
-    exact innerNd_eq a b sa sb k ha hb hsa hsb hpa hpb
+    exact innerNd_eq a b sa sb k ha hb hsa hsb hpa hpb hk
   · simp [Arr.WF, inn]
   · intro ca cb hca hcb
     exact inn_get a b sa sb k ha hb hsa hsb ca cb hca hcb
@@ -444,10 +459,10 @@ theorem outer_spec (a b : A) :
     exact outer_get a b i j hi hj
 
 /-- **vdot** (flattened dot product): operands of equal length, whatever their shapes -/
-theorem vdot_spec (a b : A) (h : a.len = b.len) :
+theorem vdot_spec (a b : A) (h : a.len = b.len) (h0 : 0 < a.len) :
     vdot a b = .ok ⟨[∑ i ∈ range a.len, a.elems.getD i 0 * b.elems.getD i 0], [1]⟩ := by
   unfold vdot
-  rw [if_pos h, sumProd_eq_sum _ _ h]; rfl
+  rw [if_pos h, if_neg (by omega), sumProd_eq_sum _ _ h]; rfl
 
 theorem vdot_refuses (a b : A) (h : a.len ≠ b.len) : vdot a b = .err .MustBeEqual := by
   unfold vdot; rw [if_neg h]
@@ -472,7 +487,9 @@ theorem inner_wf (a b r : A) (h : inner a b = .ok r) : r.WF := by
   · unfold inner11 at h
     simp only [bind_eq_ok_iff] at h
     obtain ⟨_, _, h⟩ := h
-    cases h; simp [Arr.WF]
+    split at h
+    · cases h
+    · cases h; simp [Arr.WF]
   · unfold innerNd at h
     simp only [bind_eq_ok_iff] at h
     obtain ⟨_, _, _, _, _, _, _, _, _, _, _, _, h⟩ := h
@@ -518,5 +535,392 @@ example : matmul ⟨[1, 2, 3, 4, 5, 6, 7, 8], [2, 2, 2]⟩ ⟨[1, 2, 3, 4, 5, 6]
 example : dot ⟨[0, 1, 2, 3, 4, 5], [2, 3]⟩ ⟨[1, 2], [2]⟩ = some (.err .MustBeEqual) := by decide
 example : inner ⟨[0, 1, 2, 3, 4, 5], [2, 3]⟩ ⟨[1, 2, 3, 4], [2, 2]⟩ = .err .ParameterError := by decide
 example : (⟨[0, 1, 2, 3, 4, 5], [2, 3]⟩ : A).shape[(⟨[0, 1, 2, 3, 4, 5], [2, 3]⟩ : A).ndim - 2]? = some 2 := by decide
+
+/-! # Extension (round 4): regions that used to be "modelled without a theorem" or "open"
+
+## E1 — `matmul` of a vector with a STACK of matrices, in either order
+
+The statement lists "two matrices, a matrix and a vector in either order, equally shaped stacks"; a vector with a stack is
+not in the list, so what follows is an observation about the code, not a violation (`/verif/fixes/C14-matmul-vector-stack-reshape.md`).
+`matmul_1d_nd` computes the right numbers (one vector-matrix / matrix-vector product per matrix of the stack) but reshapes
+them to `shape[1..]` of the stack instead of the textbook result shape, which only has the right element count when the
+stack length equals the contracted length. -/
+
+/-- **vector · stack, where the code is right** (`s = k`): `[k] · [k,k,p]` has shape `[k,p]` (= textbook `[s,p]`) and
+entry `(t,j)` is `Σ_i a[i]·B[t,i,j]`. -/
+theorem matmul_vec_stack (a b : A) (k p : Nat) (ha : a.WF) (hb : b.WF) (hk : 0 < k) (hp : 0 < p)
+    (hsa : a.shape = [k]) (hsb : b.shape = [k, k, p]) :
+    ∃ r, matmul a b = .ok r ∧ r.shape = [k, p] ∧ r.WF ∧
+      ∀ t j, t < k → j < p → r.get? [t, j] = some (∑ i ∈ range k, a.ent [i] * b.ent [t, i, j]) := by
+  refine ⟨⟨vsElems a b k k p, [k, p]⟩, ?_, rfl, by simp [Arr.WF, length_vsElems], ?_⟩
+  · unfold matmul
+    simp only [Arr.ndim, hsa, hsb]
+    simp [shapesAlign]
+    rw [matmul1dNd_vecstack 2 a b k k p ha hb hk hk hp hsa hsb]
+    unfold reshape
+    rw [if_pos (by simp [length_vsElems])]
+  · intro t j ht hj
+    have hr : ravel [k, p] [t, j] = t * p + j := by simp [ravel]
+    simp only [Arr.get?, hr]
+    exact vsElems_get a b k k p t j ht hj hsa hsb
+
+/-- **vector · stack, where it is wrong**: the conforming product `[k] · [s,k,p]` (textbook shape `[s,p]`) is REFUSED
+whenever the stack length differs from the contracted length. -/
+theorem matmul_vec_stack_refused (a b : A) (s k p : Nat) (ha : a.WF) (hb : b.WF) (hs : 0 < s) (hk : 0 < k) (hp : 0 < p)
+    (hsa : a.shape = [k]) (hsb : b.shape = [s, k, p]) (hsk : s ≠ k) :
+    matmul a b = .err .ShapeMustMatchValuesLength := by
+  unfold matmul
+  simp only [Arr.ndim, hsa, hsb]
+  simp [shapesAlign]
+  rw [matmul1dNd_vecstack 2 a b s k p ha hb hs hk hp hsa hsb]
+  unfold reshape
+  rw [if_neg]
+  simp only [length_vsElems, List.prod_cons, List.prod_nil, Nat.mul_one]
+  intro h
+  exact hsk (Nat.eq_of_mul_eq_mul_right hp h).symm
+
+/-- witness (`decide`): `[2] · [3,2,2]` conforms (textbook result of shape `[3,2]`) and is refused -/
+theorem matmul_vec_stack_refused_witness :
+    matmul ⟨[1, 2], [2]⟩ ⟨[1, 2, 3, 4, 5, 6, 7, 8, 9, 10, 11, 12], [3, 2, 2]⟩ = .err .ShapeMustMatchValuesLength := by
+  decide
+
+/-- **stack · vector**: for `[s,n,k] · [k]` with `s = k` the flat result holds the textbook numbers
+(position `t·n + i` is `Σ_q A[t,i,q]·b[q]`), but the shape is `[n,k]`, the textbook shape being `[s,n]`. -/
+theorem matmul_stack_vec (a b : A) (n k : Nat) (ha : a.WF) (hb : b.WF) (hn : 0 < n) (hk : 0 < k)
+    (hsa : a.shape = [k, n, k]) (hsb : b.shape = [k]) :
+    ∃ r, matmul a b = .ok r ∧ r.shape = [n, k] ∧ r.WF ∧
+      ∀ t i, t < k → i < n → r.elems[t * n + i]? = some (∑ q ∈ range k, a.ent [t, i, q] * b.ent [q]) := by
+  refine ⟨⟨svElems a b k n k, [n, k]⟩, ?_, rfl, by simp [Arr.WF, length_svElems, Nat.mul_comm], ?_⟩
+  · unfold matmul
+    simp only [Arr.ndim, hsa, hsb]
+    simp [shapesAlign]
+    rw [matmul1dNd_stackvec 2 a b k n k ha hb hk hn hk hsa hsb]
+    unfold reshape
+    rw [if_pos (by simp [length_svElems, Nat.mul_comm])]
+  · intro t i ht hi
+    exact svElems_get a b k n k t i ht hi hsa hsb
+
+/-- **stack · vector, where the code is right** (all three lengths equal): shape `[k,k]`, entry `(t,i)` is
+`Σ_q A[t,i,q]·b[q]`. -/
+theorem matmul_stack_vec_cube (a b : A) (k : Nat) (ha : a.WF) (hb : b.WF) (hk : 0 < k)
+    (hsa : a.shape = [k, k, k]) (hsb : b.shape = [k]) :
+    ∃ r, matmul a b = .ok r ∧ r.shape = [k, k] ∧ r.WF ∧
+      ∀ t i, t < k → i < k → r.get? [t, i] = some (∑ q ∈ range k, a.ent [t, i, q] * b.ent [q]) := by
+  obtain ⟨r, h1, h2, h3, h4⟩ := matmul_stack_vec a b k k ha hb hk hk hsa hsb
+  refine ⟨r, h1, h2, h3, ?_⟩
+  intro t i ht hi
+  have hr : ravel [k, k] [t, i] = t * k + i := by simp [ravel]
+  simp only [Arr.get?, h2, hr]
+  exact h4 t i ht hi
+
+/-- the conforming product `[s,n,k] · [k]` is refused whenever `s ≠ k` -/
+theorem matmul_stack_vec_refused (a b : A) (s n k : Nat) (ha : a.WF) (hb : b.WF) (hs : 0 < s) (hn : 0 < n) (hk : 0 < k)
+    (hsa : a.shape = [s, n, k]) (hsb : b.shape = [k]) (hsk : s ≠ k) :
+    matmul a b = .err .ShapeMustMatchValuesLength := by
+  unfold matmul
+  simp only [Arr.ndim, hsa, hsb]
+  simp [shapesAlign]
+  rw [matmul1dNd_stackvec 2 a b s n k ha hb hs hn hk hsa hsb]
+  unfold reshape
+  rw [if_neg]
+  simp only [length_svElems, List.prod_cons, List.prod_nil, Nat.mul_one]
+  intro h
+  rw [Nat.mul_comm s n] at h
+  exact hsk (Nat.eq_of_mul_eq_mul_left hn h).symm
+
+/-- witness (`decide`): `[2,3,2] · [2]` is accepted with the right numbers in the WRONG shape `[3,2]`
+(the textbook result `[[3,7,11],[15,19,23]]` has shape `[2,3]`) -/
+theorem matmul_stack_vec_wrong_shape_witness :
+    matmul ⟨[1, 2, 3, 4, 5, 6, 7, 8, 9, 10, 11, 12], [2, 3, 2]⟩ ⟨[1, 1], [2]⟩
+      = .ok ⟨[3, 7, 11, 15, 19, 23], [3, 2]⟩ := by
+  decide
+
+/-! ## E2 — zero-length operands
+
+The model mirrors the crate: every path through `zip` / `broadcast` refuses an empty operand (`is_broadcastable`,
+`shape.rs:18-29`), the index loops of `matmul` do not.  (The statement is about lengths 1..; these theorems say what
+happens below that, and the tie now compares the region instead of leaving it open.) -/
+
+/-- two empty operands are refused by `vdot` -/
+theorem vdot_empty_refused (a b : A) (ha : a.len = 0) (hb : b.len = 0) : vdot a b = .err .BroadcastShapeMismatch := by
+  unfold vdot; simp [ha, hb]
+
+/-- `matmul` / `dot` / `inner` of two empty vectors are refused -/
+theorem vec_vec_empty_refused (a b : A) (ha : a.WF) (hb : b.WF) (hsa : a.shape = [0]) (hsb : b.shape = [0]) :
+    matmul a b = .err .BroadcastShapeMismatch ∧ dot a b = some (.err .BroadcastShapeMismatch) ∧
+      inner a b = .err .BroadcastShapeMismatch := by
+  have hla : a.elems.length = 0 := by rw [ha, hsa]; simp
+  have hlb : b.elems.length = 0 := by rw [hb, hsb]; simp
+  refine ⟨?_, ?_, ?_⟩
+  · unfold matmul vdot; simp [Arr.ndim, Arr.len, hsa, hsb, hla, hlb]
+  · unfold dot vdot; simp [Arr.ndim, Arr.len, hsa, hsb, hla, hlb]
+  · unfold inner inner11 shapesAlign; simp [Arr.ndim, Arr.len, hsa, hsb, hla]
+
+/-- the scalar arm of `dot` refuses an empty other operand (either side) -/
+theorem dot_scalar_empty_refused (a b : A) (h1 : a.len = 1) (h0 : b.len = 0) :
+    dot a b = some (.err .BroadcastShapeMismatch) ∧ dot b a = some (.err .BroadcastShapeMismatch) := by
+  obtain ⟨x, hx⟩ : ∃ x, a.elems = [x] := by
+    match hE : a.elems, h1 with
+    | [x], _ => exact ⟨x, rfl⟩
+    | [], h => simp [Arr.len, hE] at h
+    | _ :: _ :: _, h => simp [Arr.len, hE] at h
+  have hb : b.elems = [] := List.eq_nil_of_length_eq_zero h0
+  constructor
+  · unfold dot; rw [if_pos (Or.inl h1)]; simp [multiplyScalar, hx, hb]
+  · unfold dot; rw [if_pos (Or.inr h1)]; simp [multiplyScalar, hx, hb]
+
+/-- the matrix product over an EMPTY shared index is the zero matrix (`matmul_22` with `m = 0`): every entry is the
+empty sum — the loops of `matmul_iterate` never touch `zip`, so nothing is refused -/
+theorem matmul_22_empty_shared (a b : A) (n p : Nat) (ha : a.WF) (hb : b.WF)
+    (hsa : a.shape = [n, 0]) (hsb : b.shape = [0, p]) :
+    ∃ r, matmul a b = .ok r ∧ r.shape = [n, p] ∧ ∀ i j, i < n → j < p → r.get? [i, j] = some 0 := by
+  obtain ⟨r, h1, h2, _, h4⟩ := matmul_22 a b n 0 p ha hb hsa hsb
+  exact ⟨r, h1, h2, fun i j hi hj => by rw [h4 i j hi hj]; simp⟩
+
+/-- a matrix without columns times the empty vector: `split_axis(0)` of an empty array is the array itself, ONE piece,
+so the result is the one-element array `[0]` whatever the number of rows is (textbook: `n` zeros) -/
+theorem matmul_mat_vec_no_columns (a b : A) (n : Nat) (ha : a.WF) (hsa : a.shape = [n, 0]) (hsb : b.shape = [0]) :
+    matmul a b = .ok ⟨[0], [1]⟩ := by
+  have hla : a.elems.length = 0 := by rw [ha, hsa]; simp
+  unfold matmul
+  simp only [Arr.ndim, hsa, hsb]
+  simp [shapesAlign, matmul1dNd, Arr.ndim, hsa, splitAxis0, Arr.len, hla, Res.idx, collectRes, matVecCell, foldRes,
+    Res.sequence, Arr.flat, Res.isPanic]
+
+/-- a matrix without rows (`[0,k]`, `k ≥ 1`) times a vector: the single piece is the empty array, whose entry `0` is read:
+the Rust indexing panics -/
+theorem matmul_mat_vec_no_rows_panics (a b : A) (k : Nat) (ha : a.WF) (hk : 0 < k)
+    (hsa : a.shape = [0, k]) (hsb : b.shape = [k]) : matmul a b = .panic := by
+  have hla : a.elems.length = 0 := by rw [ha, hsa]; simp
+  have hnil : a.elems = [] := List.eq_nil_of_length_eq_zero hla
+  obtain ⟨k', rfl⟩ : ∃ k', k = k' + 1 := ⟨k - 1, by omega⟩
+  unfold matmul
+  simp only [Arr.ndim, hsa, hsb]
+  simp [shapesAlign, matmul1dNd, Arr.ndim, hsa, hsb, splitAxis0, Arr.len, Res.idx, collectRes, matVecCell,
+    List.range_succ_eq_map, foldRes, hnil, Res.isPanic, Res.bind]
+
+/-- `inner` refuses every pair of operands (rank ≥ 1 each) one of which has a zero-length LAST axis -/
+theorem inner_empty_last_axis_refused (a b : A) (sa sb : List Nat) (ha : a.WF) (hb : b.WF)
+    (hsa : a.shape = sa ++ [0]) (hsb : b.shape = sb ++ [0]) : ∃ e, inner a b = .err e := by
+  have hla : a.elems.length = 0 := by rw [ha, hsa]; simp
+  have hlb : b.elems.length = 0 := by rw [hb, hsb]; simp
+  unfold inner
+  by_cases hnd : a.ndim = 1 ∧ b.ndim = 1
+  · rw [if_pos hnd]
+    have h1 : sa = [] := by have := hnd.1; simpa [Arr.ndim, hsa] using this
+    have h2 : sb = [] := by have := hnd.2; simpa [Arr.ndim, hsb] using this
+    exact ⟨.BroadcastShapeMismatch, by simp [inner11, shapesAlign, hsa, hsb, h1, h2, Arr.len, hla]⟩
+  · rw [if_neg hnd]
+    have hal : shapesAlign a.shape (a.ndim - 1) b.shape (b.ndim - 1) = .ok () := by
+      unfold shapesAlign; simp [Arr.ndim, hsa, hsb]
+    rw [hal]; simp only [Res.bind_ok]
+    unfold innerNd innerSplit
+    simp only [removeAt, Arr.ndim, hsa, hsb, List.length_append, List.length_cons, List.length_nil, Nat.zero_add,
+      Nat.add_sub_cancel, Nat.lt_succ_self, if_true, Res.bind_ok, eraseIdx_concat_length, Arr.len, hla, hlb]
+    by_cases hpa : sa.prod = 0
+    · exact ⟨.ParameterError, by simp [hpa]⟩
+    · by_cases hpb : sb.prod = 0
+      · exact ⟨.ParameterError, by simp [hpa, hpb]⟩
+      · refine ⟨.BroadcastShapeMismatch, ?_⟩
+        have he : a.elems = [] := List.eq_nil_of_length_eq_zero hla
+        have he' : b.elems = [] := List.eq_nil_of_length_eq_zero hlb
+        simp [hpa, hpb, he, he', inner11, shapesAlign, Arr.flat, Arr.len, collectRes, Res.isPanic, Res.sequence]
+
+/-! ## E3 — `dot` with an operand of rank ≥ 3 (`dot_1d` on a stack, `dot_nd`)
+
+Outside the statement ("the dot product of operands up to rank two").  `dotFull` (`ArrModel/C14Ext.lean`) is `dot`
+wherever `dot` answers and the two remaining arms as written elsewhere.  The formula numpy documents for N-D × M-D
+operands is `dot(a, b)[i.., t, j.., u] = Σ_k a[i.., t, k] · b[j.., k, u]` (sum over the LAST axis of `a` and the
+SECOND-TO-LAST axis of `b`), for a vector and a stack the same sum with the vector's only axis.  The theorems below pin
+down what the code computes instead; the deviations are reported in `/verif/fixes/C14-dot-rank3-observations.md`. -/
+
+/-- `dotFull` extends `dot` -/
+theorem dotFull_extends (a b : A) (r : Res A) (h : dot a b = some r) : dotFull a b = r := dotFull_of_some a b r h
+
+/-- **stack · vector, what the code computes**: `get_rows` reads only `shape[0]` pieces of length `shape[1]` from the
+front of the buffer, so the result has `shape[0]` entries, entry `i` being the flat entries `i·k .. i·k+k-1` against the
+vector — NOT numpy's `Σ_q a[i.., q]·b[q]` over the last axis (shape: all axes but the last). -/
+theorem dot_stack_vec_computes (a b : A) (s0 k : Nat) (rest : List Nat) (ha : a.WF) (hb : b.WF) (hrest : rest ≠ [])
+    (hsa : a.shape = s0 :: k :: rest) (hsb : b.shape = [k]) (hk : 0 < k) (hr : 0 < rest.prod)
+    (h1 : a.len ≠ 1) (h2 : b.len ≠ 1) :
+    ∃ r, dotFull a b = .ok r ∧ r.shape = [s0] ∧
+      ∀ i, i < s0 → r.get? [i] = some (∑ q ∈ range k, a.elems.getD (i * k + q) 0 * b.ent [q]) := by
+  have hlb : b.elems.length = k := by rw [hb, hsb]; simp
+  have hrl : 0 < rest.length := List.length_pos_iff.2 hrest
+  refine ⟨Arr.flat ((List.range s0).map (fun i => sumProd (row a k i) b.elems)), ?_, ?_, ?_⟩
+  · rw [dotFull_1d_stack a b h1 h2 (Or.inr ⟨by simp [Arr.ndim, hsa]; omega, by simp [Arr.ndim, hsb]⟩)]
+    exact dot1dNd_stackvec a b s0 k rest ha hb hsa hsb hk hr
+  · simp [Arr.flat]
+  · intro i hi
+    have hlr : (row a k i).length = k := length_row a k i (row_le_stack ha hsa hr hi)
+    simp only [Arr.get?, Arr.flat, ravel, List.length_map, List.length_range, List.prod_nil, Nat.mul_one,
+      Nat.add_zero, List.getElem?_map, List.getElem?_range hi, Option.map_some]
+    congr 1
+    rw [sumProd_eq_sum _ _ (by rw [hlr, hlb]), hlr]
+    apply Finset.sum_congr rfl
+    intro q hq
+    have hq' : q < k := by simpa using hq
+    simp only [row]
+    rw [getD_piece _ _ _ _ hq', ent_eq_getD, hsb]; simp [ravel]
+
+/-- a stack on the left is refused unless the vector length equals `shape[1]` (numpy compares with the LAST axis) -/
+theorem dot_stack_vec_refused (a b : A) (s0 s1 k : Nat) (rest : List Nat) (ha : a.WF) (hb : b.WF) (hrest : rest ≠ [])
+    (hsa : a.shape = s0 :: s1 :: rest) (hsb : b.shape = [k]) (hs0 : 0 < s0) (hr : 0 < rest.prod)
+    (h1 : a.len ≠ 1) (h2 : b.len ≠ 1) (hne : s1 ≠ k) : dotFull a b = .err .MustBeEqual := by
+  have hrl : 0 < rest.length := List.length_pos_iff.2 hrest
+  rw [dotFull_1d_stack a b h1 h2 (Or.inr ⟨by simp [Arr.ndim, hsa]; omega, by simp [Arr.ndim, hsb]⟩)]
+  exact dot1dNd_stackvec_refused a b s0 s1 k rest ha hb hsa hsb hs0 hr hne
+
+/-- **vector · stack, what the code computes**: `get_columns` reads `shape[1]` pieces of length `shape[0]` of the
+all-axes-reversed transpose, so the result has `shape[1]` entries, entry `j` being `Σ_i a[i]·b[i, j, 0, …, 0]` — the
+vector against the FIRST matrix-column slice only, contracted over axis 0; numpy contracts over the second-to-last axis
+and returns all axes but that one. -/
+theorem dot_vec_stack_computes (a b : A) (k s1 : Nat) (rest : List Nat) (ha : a.WF) (hb : b.WF) (hrest : rest ≠ [])
+    (hsa : a.shape = [k]) (hsb : b.shape = k :: s1 :: rest) (hk : 0 < k) (hr : 0 < rest.prod)
+    (h1 : a.len ≠ 1) (h2 : b.len ≠ 1) :
+    ∃ r, dotFull a b = .ok r ∧ r.shape = [s1] ∧
+      ∀ j, j < s1 → r.get? [j] = some (∑ i ∈ range k, a.ent [i] * b.ent (i :: j :: List.replicate rest.length 0)) := by
+  have hla : a.elems.length = k := by rw [ha, hsa]; simp
+  have hrl : 0 < rest.length := List.length_pos_iff.2 hrest
+  refine ⟨Arr.flat ((List.range s1).map (fun j => sumProd a.elems (colT b k j))), ?_, ?_, ?_⟩
+  · rw [dotFull_1d_stack a b h1 h2 (Or.inl ⟨by simp [Arr.ndim, hsa], by simp [Arr.ndim, hsb]; omega⟩)]
+    exact dot1dNd_vecstack a b k s1 rest ha hb hsa hsb hk hr
+  · simp [Arr.flat]
+  · intro j hj
+    have hlc : (colT b k j).length = k := length_colT hb hsb hr hj
+    simp only [Arr.get?, Arr.flat, ravel, List.length_map, List.length_range, List.prod_nil, Nat.mul_one,
+      Nat.add_zero, List.getElem?_map, List.getElem?_range hj, Option.map_some]
+    congr 1
+    rw [sumProd_eq_sum _ _ (by rw [hla, hlc]), hla]
+    apply Finset.sum_congr rfl
+    intro i hi
+    have hi' : i < k := by simpa using hi
+    simp only [colT]
+    rw [getD_piece _ _ _ _ hi', revT_col b k s1 rest hb hsb hr i j hi' hj, ent_eq_getD a, hsa]; simp [ravel]
+
+/-- a stack on the right is refused unless the vector length equals `shape[0]` (numpy: the second-to-last axis) -/
+theorem dot_vec_stack_refused (a b : A) (k s0 s1 : Nat) (rest : List Nat) (ha : a.WF) (hb : b.WF) (hrest : rest ≠ [])
+    (hsa : a.shape = [k]) (hsb : b.shape = s0 :: s1 :: rest) (hs1 : 0 < s1) (hr : 0 < rest.prod)
+    (h1 : a.len ≠ 1) (h2 : b.len ≠ 1) (hne : k ≠ s0) : dotFull a b = .err .MustBeEqual := by
+  have hrl : 0 < rest.length := List.length_pos_iff.2 hrest
+  rw [dotFull_1d_stack a b h1 h2 (Or.inl ⟨by simp [Arr.ndim, hsa], by simp [Arr.ndim, hsb]; omega⟩)]
+  exact dot1dNd_vecstack_refused a b k s0 s1 rest ha hb hsa hsb hs1 hr hne
+
+/-- deviation witnesses (`decide`): `[2,3,2] · [3]` is ACCEPTED (numpy refuses: last axis 2 ≠ 3) and gives 2 numbers;
+`[2] · [2,2,3]` gives 2 numbers where numpy gives the `[2,3]` array `[[9,12,15],[27,30,33]]` -/
+theorem dot_1d_stack_deviation_witnesses :
+    dotFull ⟨[1, 2, 3, 4, 5, 6, 7, 8, 9, 10, 11, 12], [2, 3, 2]⟩ ⟨[1, 1, 1], [3]⟩ = .ok ⟨[6, 15], [2]⟩ ∧
+    dotFull ⟨[1, 2], [2]⟩ ⟨[1, 2, 3, 4, 5, 6, 7, 8, 9, 10, 11, 12], [2, 2, 3]⟩ = .ok ⟨[15, 24], [2]⟩ := by
+  constructor <;> decide
+
+/-- **`dot_nd` refuses operands whose contracted lengths differ** (last axis of `a`, second-to-last of `b`) — as numpy -/
+theorem dot_nd_refuses_contract (a b : A) (LA LB : List Nat) (n m m' p : Nat)
+    (hsa : a.shape = LA ++ [n, m]) (hsb : b.shape = LB ++ [m', p]) (h1 : a.len ≠ 1) (h2 : b.len ≠ 1)
+    (hrank : LA ≠ [] ∨ LB ≠ []) (hne : m ≠ m') : dotFull a b = .err .ParameterError := by
+  have hl : 0 < LA.length ∨ 0 < LB.length := hrank.imp List.length_pos_iff.2 List.length_pos_iff.2
+  rw [dotFull_nd a b h1 h2 (by simp [Arr.ndim, hsa]) (by simp [Arr.ndim, hsb])
+    (by simp only [Arr.ndim, hsa, hsb, List.length_append, List.length_cons, List.length_nil]; omega)]
+  exact dotNd_refuses_contract a b LA LB n m m' p hsa hsb hne
+
+/-- **`dot_nd` ALSO refuses every conforming pair with `n ≠ p`** (second-to-last length of `a`, last length of `b`):
+numpy accepts these (result shape `LA ++ [n] ++ LB ++ [p]`) -/
+theorem dot_nd_refuses_nonsquare (a b : A) (LA LB : List Nat) (n m p : Nat) (ha : a.WF) (hb : b.WF)
+    (hsa : a.shape = LA ++ [n, m]) (hsb : b.shape = LB ++ [m, p]) (hnza : 0 ∉ a.shape) (hnzb : 0 ∉ b.shape)
+    (h1 : a.len ≠ 1) (h2 : b.len ≠ 1) (hrank : LA ≠ [] ∨ LB ≠ []) (hne : n ≠ p) :
+    dotFull a b = .err .MustBeEqual := by
+  have hl : 0 < LA.length ∨ 0 < LB.length := hrank.imp List.length_pos_iff.2 List.length_pos_iff.2
+  rw [dotFull_nd a b h1 h2 (by simp [Arr.ndim, hsa]) (by simp [Arr.ndim, hsb])
+    (by simp only [Arr.ndim, hsa, hsb, List.length_append, List.length_cons, List.length_nil]; omega)]
+  exact dotNd_refuses_outer a b LA LB n m p ha hb hsa hsb hnza hnzb hne
+
+/-- **`dot_nd`, what the code computes** (shapes `LA ++ [n, m]`, `LB ++ [m, n]`, no zero-length axis): with `S1` = `a`
+with its second-to-last axis rotated to the front and `S2` = `b` with its last axis rotated to the front (flat buffers,
+characterised entry by entry), the result is the transpose by the fixed axis list `dotPairs` of the array `U` of shape
+`LA ++ [m] ++ LB ++ [m]` whose flat entry `(c, d)` is `Σ_x S1[c·n + x] · S2[d·n + x]` — the buffers are cut into
+chunks of length `n` (not `m`), and the shape is built from `m` (not `n`): the numbers line up with numpy's formula only
+when `n = m` and the leading lengths equal `n` too (`dot_nd_cube`). -/
+theorem dot_nd_computes (a b : A) (LA LB : List Nat) (n m : Nat) (ha : a.WF) (hb : b.WF)
+    (hsa : a.shape = LA ++ [n, m]) (hsb : b.shape = LB ++ [m, n]) (hnza : 0 ∉ a.shape) (hnzb : 0 ∉ b.shape)
+    (h1 : a.len ≠ 1) (h2 : b.len ≠ 1) (hrank : LA ≠ [] ∨ LB ≠ []) :
+    ∃ S1 S2 : List Int, S1.length = LA.prod * m * n ∧ S2.length = LB.prod * m * n ∧
+      (∀ l k t, inRange LA l = true → k < m → t < n → S1[(t * LA.prod + ravel LA l) * m + k]? = a.get? (l ++ [t, k])) ∧
+      (∀ l k u, inRange LB l = true → k < m → u < n → S2[u * (LB.prod * m) + (ravel LB l * m + k)]? = b.get? (l ++ [k, u])) ∧
+      dotFull a b = (⟨(List.range (LA.prod * m)).flatMap (fun c => (List.range (LB.prod * m)).map (fun d =>
+            ∑ x ∈ range n, S1.getD (c * n + x) 0 * S2.getD (d * n + x) 0)), (LA ++ [m]) ++ (LB ++ [m])⟩ : A).transpose 0
+        (some (dotPairs ((LA ++ [m]) ++ (LB ++ [m])).length (decide (b.len > a.len)))) := by
+  have hl : 0 < LA.length ∨ 0 < LB.length := hrank.imp List.length_pos_iff.2 List.length_pos_iff.2
+  obtain ⟨S1, S2, e1, e2, g1, g2, hd⟩ := dotNd_computes a b LA LB n m ha hb hsa hsb hnza hnzb
+  refine ⟨S1, S2, e1, e2, g1, g2, ?_⟩
+  rw [dotFull_nd a b h1 h2 (by simp [Arr.ndim, hsa]) (by simp [Arr.ndim, hsb])
+    (by simp only [Arr.ndim, hsa, hsb, List.length_append, List.length_cons, List.length_nil]; omega), hd]
+  congr 2
+  unfold dotU
+  apply List.flatMap_congr
+  intro c hc
+  apply List.map_congr_left
+  intro d hd'
+  have hc' : c < LA.prod * m := by simpa using hc
+  have hd'' : d < LB.prod * m := by simpa using hd'
+  have hl1 := length_chunk S1 n c (by rw [e1]; exact Nat.mul_le_mul_right n hc')
+  have hl2 := length_chunk S2 n d (by rw [e2]; exact Nat.mul_le_mul_right n hd'')
+  rw [sumProd_eq_sum _ _ (by rw [hl1, hl2]), hl1]
+  apply Finset.sum_congr rfl
+  intro x hx
+  have hx' : x < n := by simpa using hx
+  rw [getD_chunk _ _ _ _ hx', getD_chunk _ _ _ _ hx']
+
+/-- deviation witness (`decide`): `[2,2] · [3,2,2]` — numpy's result has shape `[2,3,2]` and flat entries
+`7,10,19,22,31,34,15,22,43,50,71,78` (`dotNumpy`); the code returns shape `[2,2,3]` with the entries in another order -/
+theorem dot_nd_deviation_witness :
+    dotFull ⟨[1, 2, 3, 4], [2, 2]⟩ ⟨[1, 2, 3, 4, 5, 6, 7, 8, 9, 10, 11, 12], [3, 2, 2]⟩
+      = .ok ⟨[7, 31, 22, 19, 10, 34, 15, 71, 50, 43, 22, 78], [2, 2, 3]⟩ ∧
+    dotNumpy ⟨[1, 2, 3, 4], [2, 2]⟩ ⟨[1, 2, 3, 4, 5, 6, 7, 8, 9, 10, 11, 12], [3, 2, 2]⟩ [] [3] 2 2 2
+      = ⟨[7, 10, 19, 22, 31, 34, 15, 22, 43, 50, 71, 78], [2, 3, 2]⟩ := by
+  constructor <;> decide +kernel
+
+/-- **`dot_nd`, where the code meets numpy's formula**: two cubes `[n,n,n] · [n,n,n]` (`n ≥ 2`) give shape `[n,n,n,n]`
+and entry `(l, t, l', u)` is `Σ_k a[l,t,k]·b[l',k,u]` — the only kind of stack the existing tests use (`2×2×2`). -/
+theorem dot_nd_cube (a b : A) (n : Nat) (ha : a.WF) (hb : b.WF) (hn : 2 ≤ n)
+    (hsa : a.shape = [n, n, n]) (hsb : b.shape = [n, n, n]) :
+    ∃ r, dotFull a b = .ok r ∧ r.shape = [n, n, n, n] ∧ r.WF ∧
+      ∀ l t l' u, l < n → t < n → l' < n → u < n →
+        r.get? [l, t, l', u] = some (∑ k ∈ range n, a.ent [l, t, k] * b.ent [l', k, u]) := by
+  have h8 : 8 ≤ n * (n * n) := by
+    calc 8 = 2 * (2 * 2) := rfl
+      _ ≤ n * (n * n) := Nat.mul_le_mul hn (Nat.mul_le_mul hn hn)
+  have h1 : a.len ≠ 1 := by
+    have : a.len = n * (n * n) := wf_len3 ha hsa
+    omega
+  have h2 : b.len ≠ 1 := by
+    have : b.len = n * (n * n) := wf_len3 hb hsb
+    omega
+  rw [dotFull_nd a b h1 h2 (by simp [Arr.ndim, hsa]) (by simp [Arr.ndim, hsb]) (Or.inl (by simp [Arr.ndim, hsa]))]
+  exact dotNd_cube a b n ha hb (by omega) hsa hsb
+
+/-- non-vacuity of the cube theorem and of `dot_nd_computes` (the suite's own `2×2×2` row) -/
+example : dotFull ⟨[1, 2, 3, 4, 5, 6, 7, 8], [2, 2, 2]⟩ ⟨[1, 2, 3, 4, 5, 6, 7, 8], [2, 2, 2]⟩
+    = .ok ⟨[7, 10, 19, 22, 15, 22, 43, 50, 23, 34, 67, 78, 31, 46, 91, 106], [2, 2, 2, 2]⟩ := by decide +kernel
+
+/-- every `ok` result of `dot`, whatever the ranks of the operands, is well-formed -/
+theorem dotFull_wf (a b r : A) (ha : a.WF) (hb : b.WF) (h : dotFull a b = .ok r) : r.WF := by
+  unfold dotFull at h
+  split at h
+  · rename_i x hx
+    subst h
+    exact dot_wf a b r ha hb hx
+  · split at h
+    · unfold dot1dNd at h
+      by_cases h1 : a.ndim > 1 <;> by_cases h2 : b.ndim > 1 <;>
+        simp only [h1, h2, if_true, if_false, bind_eq_ok_iff] at h <;>
+        obtain ⟨_, _, _, _, h⟩ := h <;> exact dotIterate_wf h
+    · unfold dotNd at h
+      simp only [bind_eq_ok_iff] at h
+      obtain ⟨_, _, _, _, _, _, _, _, _, _, _, _, x, _, h⟩ := h
+      unfold Arr.transpose at h
+      obtain ⟨_, _, h⟩ := bind_eq_ok h
+      unfold Arr.new at h
+      split at h
+      · cases h; simp only [Arr.WF]; omega
+      · cases h
 
 end ArrModel.C14
